@@ -157,6 +157,8 @@ type Chan struct {
 	Elem   types.Type
 	tag    string
 	closeVC []int
+	recvW   []opRef
+	wEpoch  int
 }
 
 // ---- zero values ----
